@@ -9,11 +9,22 @@ or string annotation *resolved in the context*.
 namespace PedVerif.Checker
 
 /-- class-level subtype relation used for `Type[C]` -/
+def memberSpec (env : Env) (c : ClsId) : Ann → Bool
+  | .any => true
+  | .cls d => env.sub c d
+  | .clsF d _ _ => env.sub c d
+  -- a parametrised generic as a member: a class object can only be compared with it at class level (its origin class)
+  | .seq _ o _ => env.sub c (env.seqCls o)
+  | .map _ o _ _ => env.sub c (env.mapCls o)
+  | .tuple _ _ => env.sub c env.tupleCls
+  | .tupleVar _ _ => env.sub c env.tupleCls
+  | .typeOf _ _ => env.sub c env.typeCls
+  | _ => false
 def subSpec (env : Env) (c : ClsId) : Ann → Bool
   | .any => true
   | .cls d => env.sub c d
   | .clsF d _ _ => env.sub c d
-  | .union _ ms => ms.any (fun m => match m with | .cls d => env.sub c d | .clsF d _ _ => env.sub c d | .any => true | _ => false)
+  | .union _ ms => ms.any (memberSpec env c)
   | _ => false
 
 mutual
